@@ -393,6 +393,25 @@ def parse_int_model(s, bits, signed):
     return z3.And(ok, inrange), v
 
 
+def M_int_to_string(it, ctx, args, st):
+    """<iN/uN as ToString>::to_string (Display): the canonical decimal text, as a fresh string r constrained by
+    parse(r) == v and canonical form (no '+', no leading zeros, no "-0") -- std contract, relational encoding"""
+    name = ctx.self_ty[1]
+    bits, signed = INT_BITS[name], name[0] == 'i'
+    v = args[0] if not isinstance(args[0], Ptr) else st.deref_all(args[0])
+    K = {8: 4, 16: 6, 32: 11, 64: 20}[bits] if signed else {8: 3, 16: 5, 32: 10, 64: 20}[bits]
+    n = it.counter = getattr(it, 'counter', 0) + 1
+    r = BStr(tuple(z3.BitVec(f'dec{n}_{i}', 8) for i in range(K)), z3.BitVec(f'dec{n}_len', 64))
+    ok, pv = parse_int_model(r, bits, signed)
+    b0, b1 = r.bytes[0], r.bytes[1]
+    neg = (b0 == 45)
+    first = z3.If(neg, b1, b0)
+    ndig = z3.If(neg, r.len - 1, r.len)
+    st.pc.append(z3.And(ok, pv == v, b0 != 43, z3.Implies(first == 48, z3.And(ndig == 1, z3.Not(neg))),
+                        *[z3.Implies(z3.UGE(bv(i), r.len), b == 0) for i, b in enumerate(r.bytes)]))
+    yield st, r
+
+
 def M_str_parse(it, ctx, args, st):
     tgt = ctx.gargs[0]
     name = tgt[1]
@@ -572,6 +591,11 @@ def M_into_iter(it, ctx, args, st):
         if isinstance(tgt, (Seq, BStr)):
             yield st, It('ptrseq', v)
             return
+    if isinstance(v, Enum) and v.decl.name.endswith('Option') and concrete(v.discr) is None:
+        # Option as IntoIterator with a symbolic discriminant: one path per case
+        for s2, some in fork_bool(it, st, it.variant_of(v, 'Some')):
+            yield s2, It('list', (it.payload(v, 'Some').fields[0],) if some else ())
+        return
     yield st, as_iter(it, st, v)
 
 
@@ -598,8 +622,27 @@ def M_iter_next(it, ctx, args, st):
 
 
 def M_collect(it, ctx, args, st):
+    tgt = ctx.gargs[0] if ctx.gargs else None
+    into_result = tgt is not None and tgt[0] == 'path' and tgt[1].endswith('Result')
     for s2, items in drain(it, st, as_iter(it, st, args[0]), ctx.fr):
-        yield s2, (items if is_abnormal(items) else Seq(tuple(items)))
+        if is_abnormal(items):
+            yield s2, items
+        elif into_result:
+            # FromIterator for Result<V, E>: the first Err wins (items after it are not inspected by the real adaptor; the models'
+            # closures are pure, so having drained them is unobservable), otherwise Ok(collection of the payloads)
+            def go(s, k, acc):
+                if k == len(items):
+                    yield s, it.ok(Seq(tuple(acc)))
+                    return
+                r = items[k]
+                for s3, good in fork_bool(it, s, it.variant_of(r, 'Ok')):
+                    if good:
+                        yield from go(s3, k + 1, acc + [it.payload(r, 'Ok').fields[0]])
+                    else:
+                        yield s3, it.err(it.payload(r, 'Err').fields[0])
+            yield from go(s2, 0, [])
+        else:
+            yield s2, Seq(tuple(items))
 
 
 def M_count(it, ctx, args, st):
@@ -901,6 +944,18 @@ def M_refcell_new(it, ctx, args, st):
     yield st, Agg('std::cell::RefCell', (args[0],))
 
 
+def M_box_new_uninit(it, ctx, args, st):
+    """Box::<[T; N]>::new_uninit of the vec![..] expansion: MaybeUninit { uninit: (), value: ManuallyDrop(MaybeDangling(<unset>)) }"""
+    yield st, box(st, Agg('MaybeUninit', (UNIT, Agg('ManuallyDrop', (Agg('MaybeDangling', (None,)),)))))
+
+
+def M_box_assume_init_into_vec(it, ctx, args, st):
+    arr = unbox(st, args[0]).fields[1].fields[0].fields[0]
+    if arr is None:
+        raise Unsupported('box_assume_init_into_vec_unsafe of an unset array')
+    yield st, arr
+
+
 def M_box_new(it, ctx, args, st):
     yield st, box(st, args[0])
 
@@ -1188,6 +1243,21 @@ def M_fmt_arguments_from_str(it, ctx, args, st):
 # ------------------------------------------------------------------ awaiting a repository async fn: poll its state machine
 def M_poll_async_body(it, ctx, args, st):
     import re as _re
+    mt = _re.match(r'<\{async fn body of <(.+)>::(\w+)\(\)\} as ', ctx.callee.key)
+    if mt:
+        # async fn of a trait impl: <X as Trait<..>>::method  ->  the impl's state machine
+        from .parse import top_find as _tf
+        from .types import ty_parse as _tp, subst as _sub
+        inner = mt.group(1)
+        k = _tf(inner, ' as ')
+        self_ty = it.canon_ty(ctx.fr.fn.crate, _sub(_tp(inner[:k]), ctx.fr.tenv))
+        trait = it.canon_ty(ctx.fr.fn.crate, _sub(_tp(inner[k + 4:]), ctx.fr.tenv))
+        tgt = it.dispatch_target(self_ty, trait, mt.group(2), [], list(args), st, ctx)
+        if tgt is None or callable(tgt):
+            raise Unsupported(f'async body of {inner}::{mt.group(2)}: no impl')
+        name, tenv = tgt
+        yield from it.invoke(name + '::{closure#0}', list(args), st, tenv, ctx.fr.depth + 1)
+        return
     m = _re.match(r'<\{async fn body of ([^<({]+)', ctx.callee.key)
     path = m.group(1).strip()
     crate = ctx.fr.fn.crate
@@ -1252,7 +1322,7 @@ MODELS = [
     (r'<&*(?:' + P + r'string::String|str) as ' + P + r'cmp::PartialEq(<&*(?:' + P + r'string::String|str)>)?>::ne', M_str_ne),
     (r'<&?str as ' + P + r'cmp::PartialEq(<&?str>)?>::eq', M_str_eq),
     (r'<' + P + r'string::String as ' + P + r'cmp::PartialEq(<.*>)?>::eq', M_str_eq),
-    (r'<str as ' + P + r'(string::ToString|borrow::ToOwned)>::(to_string|to_owned)', M_to_owned_str),
+    (r'<&?str as ' + P + r'(string::ToString|borrow::ToOwned)>::(to_string|to_owned)', M_to_owned_str),
     (r'<' + P + r'string::String as ' + P + r'(string::ToString|clone::Clone)>::(to_string|clone)', M_to_owned_str),
     (r'<' + P + r'string::String as ' + P + r'convert::From<&str>>::from', M_to_owned_str),
     (r'<' + P + r'string::String as ' + P + r'ops::Deref>::deref', M_string_deref),
@@ -1273,11 +1343,12 @@ MODELS = [
     (P + r'slice::<impl \[.*\]>::len', M_vec_len), (P + r'slice::<impl \[.*\]>::is_empty', M_vec_is_empty),
     (P + r'slice::<impl \[.*\]>::contains', M_slice_contains),
     (P + r'collections::BTreeSet::<.*>::iter', M_slice_iter), (P + r'collections::HashMap::<.*>::values', M_slice_iter),
-    (P + r'vec::Vec::<.*>::new', M_vec_new), (P + r'vec::Vec::<.*>::len', M_vec_len), (P + r'vec::Vec::<.*>::is_empty', M_vec_is_empty),
+    (P + r'vec::Vec::<.*>::(?:new|with_capacity)', M_vec_new), (P + r'vec::Vec::<.*>::len', M_vec_len), (P + r'vec::Vec::<.*>::is_empty', M_vec_is_empty),
     (P + r'vec::Vec::<.*>::push', M_vec_push),
     (r'<' + P + r'vec::Vec<.*> as ' + P + r'ops::Deref(Mut)?>::deref(_mut)?', M_vec_deref),
     (P + r'cell::RefCell::<.*>::borrow(_mut)?', M_refcell_borrow), (P + r'cell::RefCell::<.*>::new', M_refcell_new),
     (r'<' + P + r'cell::Ref(Mut)?<.*> as ' + P + r'ops::Deref(Mut)?>::deref(_mut)?', M_guard_deref),
+    (P + r'boxed::Box::<.*>::new_uninit', M_box_new_uninit), (P + r'boxed::box_assume_init_into_vec_unsafe::<.*>', M_box_assume_init_into_vec),
     (P + r'boxed::Box::<.*>::new', M_box_new), (P + r'sync::Arc::<.*>::new', M_arc_new),
     (r'<' + P + r'sync::Arc<.*> as ' + P + r'ops::Deref>::deref', M_arc_deref),
     (r'<' + P + r'sync::Arc<.*> as ' + P + r'clone::Clone>::clone', M_arc_clone),
@@ -1306,6 +1377,7 @@ MODELS = [
     (r'<' + P + r'boxed::Box<dyn .*> as ' + P + r'convert::From<.*>>::from', M_identity),
     (P + r'iter::empty::<.*>', lambda it, ctx, args, st: iter([(st, It('list', ()))])),
     (r'<char as ' + P + r'string::ToString>::to_string', M_char_to_string),
+    (r'<[iu](?:8|16|32|64|size) as ' + P + r'string::ToString>::to_string', M_int_to_string),
     (r'<f(?:64|32) as ' + P + r'convert::From<(?:f32|f64|[iu](?:8|16|32))>>::from', M_float_from),
     (P + r'mem::drop::<.*>', M_unit),
     (r'<(?:' + P + r'string::String|str) as ' + P + r'ops::Index<' + P + r'ops::Range\w*(<usize>)?>>::index', M_str_index_range),
